@@ -479,7 +479,9 @@ CHECKS = {'C01': {'level': 'exploration',
                  'body (no effect, nothing emitted) | one generated transaction in six without DeleteAt steps starts by narrowing its selection to '
                  'nothing (WithValue(col, never) and Count) before its point and key operations, which are independent of the selection | since '
                  'round 10 the concurrent programs write one store in four through column accessors at the cursor (txn.X(col).Set/Merge) and one '
-                 'committing transaction in four ends by obtaining an accessor that it only reads',
+                 'committing transaction in four ends by obtaining an accessor that it only reads | since round 10 one schema in three of the '
+                 'sequential C11 histories has a key column: rows are then created with InsertKey under fresh keys (row callbacks may end with a '
+                 'nested point query that moves the cursor), and the key of a fresh row is part of what it exposes',
          'assumptions': ['free-parallel runs are not bit-reproducible: the replay re-runs the generated program (schedule left to the Go runtime)'],
          'tests': [{'run': '^TestC11$',
                     'checks': {'quick': 200, 'thorough': 2000},
